@@ -150,7 +150,8 @@ def check(run, prog):
                 continue
             base, lo, hi, st, rest = ds
             fi = labels.expr.subs(labels.axes[0], i)
-            exp_base = F["IFFT"](F["Take"](F["FFT"](z.attrs["_data"].expr, 0), i, 1) * expected_H(fi, refq, kb, N), 0)
+            spec_i = F["Take"](F["FFT"](z.attrs["_data"].expr, 0), i, 1) if nchan > 1 else F["FFT"](z.attrs["_data"].expr, 0)
+            exp_base = F["IFFT"](spec_i * expected_H(fi, refq, kb, N), 0)
             ck.eq("R3", f_coh.where, f"channel {i}: filtered data " + tag, "== ifft(fft(x, axis 0) * H_i, axis 0)", base, exp_base, constraints=cons)
             ck.same("R3", f_coh.where, f"channel {i}: crop is a plain time slice " + tag, "only the time axis is cropped (step 1, no other index)",
                     st == NONE_S and len(rest) == 0, found=f"step {st}, extra indices {rest}")
